@@ -19,6 +19,13 @@ Case kinds (input["op"]):
   edit     read -> the user assigns into the object -> re-read, vs a fresh object holding the edited contents (py_ok).
   dsderive dataset derivations with vs without prior reads on the source (py_ok).
   seed     seeded simulations under perturbed global RNG states -> KA (KSeed ..); the images / kernels handed over are fingerprinted.
+  share    OverSamplingDataset objects handed to dataset constructors and to apply_over_sampling (explicitly, ONE object to several calls,
+           partially specified, omitted = the signature's default instance) and derivations that keep the over-sampling, on several
+           Imaging / Interferometer datasets -> KShare (machine of Model/C11s.v vs value semantics); each dataset vs a history-free twin.
+  util     the solver / linear-algebra util functions called directly with caller-owned arrays (order, dtype, sign pattern of the solution
+           varied): arguments unchanged, second call and call on private copies give the same bits (py_ok).
+In EVERY stream: structural fingerprints of all caller-owned objects and of every default-argument object of the autoarray package
+(default_singletons); in the graph / reuse / fit streams additionally every value stored in the graph before a read keeps its bytes.
 """
 import sys, types, zlib, itertools, hashlib
 if "pylops" not in sys.modules:          # stand-in (pylops is not installed): lets Interferometer / TransformerDFT be built
@@ -68,7 +75,8 @@ RULE = ("random histories (length <= 26) over Array2D / Grid2D / VectorYX2D / Ke
         "MapperRectangular / MapperValued / SettingsInversion objects plus a fixed corpus of the witness histories of D7-D12, D19 and of the "
         "in-place kernel normalisation; random reads on the five quantity graphs of Model/C11g.v; random read orders (with sweeps) on "
         "inversions, fits, meshes and on inversions sharing parts; user edits; dataset derivations; seeded simulations under perturbed "
-        "RNG states. A case is non-trivial if it contains at least one read after a derivation or a repeated read; distinct = distinct JSON input.")
+        "RNG states; histories of shared / partially specified / omitted OverSamplingDataset arguments over two or more datasets; util solver "
+        "functions on caller-owned arrays; directed inversions whose positive-only warm start has every parameter passive. A case is non-trivial if it contains at least one read after a derivation or a repeated read; distinct = distinct JSON input.")
 EXHAUSTIVE = {}
 TRUSTED = ["hand-written heap/effect model coq/Model/C11.v (tied to /repo by this run: observations, changed names vs effect "
            "summaries and final contents are compared inside Coq)",
@@ -76,6 +84,8 @@ TRUSTED = ["hand-written heap/effect model coq/Model/C11.v (tied to /repo by thi
            "read are compared inside Coq)",
            "harness/c11.py: twin construction (same constructor, same contents, never read), value encoding (integral floats "
            "as integers, others as IEEE-754 bit patterns), fingerprints (crc32 of bytes + shape + dtype)",
+           "hand-written shared-argument machine coq/Model/C11s.v (tied to /repo by the KShare cases: records observed and names whose "
+           "record changed after every step are compared inside Coq)",
            "Python reference semantics of attributes / __dict__ / numpy views (modelled, not verified)"]
 ASSUMPTIONS = ["pylops is absent: a stand-in module (LinearOperator = object) is installed before importing autoarray so that "
                "Interferometer datasets can be built; numba absent",
@@ -2360,6 +2370,9 @@ def extra_evidence():
     return {"distribution": dict(sorted(TALLY.items())),"modelled_operations": ["ONew", "OConstruct(Array2D|Grid2D|VectorYX2D|Kernel2D|Visibilities|Mask2D|MapperRectangular)", "OAlias(Imaging)",
                                     "OArith", "OSlice", "OCopy", "OTrim", "ORead(cached_property)", "OPlain", "OPeekIn", "OPeekObj",
                                     "OValued(MapperValued)", "OValuesMasked", "OMapRecon", "OInterf", "OImaging",
-                                    "OConstruct(.., Some q) = Kernel2D(normalize=True) / psf.normalized", "OConstruct(SObj) = x.native / x.slim"],
+                                    "OConstruct(.., Some q) = Kernel2D(normalize=True) / psf.normalized", "OConstruct(SObj) = x.native / x.slim",
+                                    "HArg(OverSamplingDataset)", "HDs(Imaging|Interferometer, argument|omitted)", "HApply(apply_over_sampling, argument|omitted)",
+                                    "HKeep(apply_mask|apply_noise_scaling)", "HPeekArg", "HPeekDs", "HPeekDefault"],
+            "default_argument_singletons": [n + ":" + type(o).__name__ for n, o in default_singletons()],
             "graphs": {str(k): {"name": v, "nodes": [f"{o}.{n}:{kd}" for o, n, kd in GNODES[v]]} for k, v in GINST.items()},
             "quantities": {k: {"cached": sorted(v.cached), "plain": v.plain} for k, v in KINDS.items()}}
